@@ -856,7 +856,7 @@ def _resolve_action_conflicts(
                 competing_event = get_event_from_element(
                     state, competing_flow_state, competing_element
                 )
-                if winning_event.is_equal(competing_event):
+                if _is_same_event_for_conflict(state, winning_event, competing_event):
                     if (
                         isinstance(winning_event, ActionEvent)
                         and winning_event.action_uid
@@ -914,6 +914,30 @@ def _resolve_action_conflicts(
                     _abort_flow(state, flow_state, head.matching_scores)
 
     return advancing_heads
+
+
+def _is_same_event_for_conflict(
+    state: State, winning_event: Event, competing_event: Event
+) -> bool:
+    """True if two flows that generate these events agree (no conflict).
+
+    Events with equal name and arguments agree, unless they belong to two different
+    action instances: then they only agree if they start the action (both flows will
+    share the started action). A `Stop`/`Change` event of another action instance is a
+    different event.
+    """
+    if not winning_event.is_equal(competing_event):
+        return False
+    if (
+        isinstance(winning_event, ActionEvent)
+        and isinstance(competing_event, ActionEvent)
+        and winning_event.action_uid
+        and competing_event.action_uid
+        and winning_event.action_uid != competing_event.action_uid
+    ):
+        action = state.actions.get(winning_event.action_uid)
+        return action is not None and winning_event.name == f"Start{action.name}"
+    return True
 
 
 def _advance_head_front(state: State, heads: List[FlowHead]) -> List[FlowHead]:
